@@ -1079,6 +1079,16 @@ class PseudoNetCDFFile(PseudoNetCDFSelfReg, object):
                        if isinstance(v, np.ndarray)):
                     # a plain view of an existing variable (np.asarray(A))
                     val = np.array(val)
+                if (
+                    tuple(len(self.dimensions[dk])
+                          if dk in self.dimensions else -1
+                          for dk in vdimt) != tuple(np.shape(val))
+                ):
+                    raise ValueError(
+                        ('%s has shape %s; no variable of the expression ' +
+                         'has dimensions of these lengths (dimensions ' +
+                         'considered last: %s)') % (
+                            key, np.shape(val), vdimt))
                 outf.createVariable(key, val.dtype.char,
                                     vdimt, values=val, **propd)
 
